@@ -168,7 +168,8 @@ def rule_R3(ctx, f, b):
     # variable names with a '$' put in front by format!
     sets = {}
     for c in b.calls_to("BTreeSet::insert"):
-        S = peel(c.args[0])
+        from pvrules import seqeval as _sq
+        S = peel(_sq._resolve_join(c.args[0], b))
         v = c.args[1]
         pv = peel(v)
         if isinstance(pv, tuple) and pv and pv[0] == "agg" and (pv[2].endswith("Cow::Borrowed") or pv[2].endswith("Cow::Owned")) and pv[3]:
